@@ -1,7 +1,7 @@
 #!/usr/bin/env python3
 """Seeded-regression matrix.
 
-  tools/seeded.py ingest <ID> <outdir>      copy a sub-agent's m<k>.* files to seeded/<ID>-m<k>/
+  tools/seeded.py ingest <ID> <outdir> [wave]  copy a sub-agent's m<k>.* files to seeded/<ID>-m<k>/
   tools/seeded.py run [<name> ...] [--tier quick] [--runs N]
         apply each seeded patch to /repo, run the property's check, undo the patch,
         and write seeded/RESULTS.json (+ the table for DESIGN.md on stdout)
@@ -11,14 +11,16 @@ import json, os, shutil, subprocess, sys, glob, time
 ROOT = os.path.dirname(os.path.dirname(os.path.abspath(__file__)))
 SEEDED = os.path.join(ROOT, 'seeded')
 
-def ingest(pid, out):
+def ingest(pid, out, wave=None):
     for meta in sorted(glob.glob(os.path.join(out, 'm*_meta.json'))):
         k = os.path.basename(meta).split('_')[0]
-        d = os.path.join(SEEDED, f'{pid}-{k}')
+        d = os.path.join(SEEDED, f'{pid}-w{wave}{k}' if wave else f'{pid}-{k}')
         os.makedirs(d, exist_ok=True)
         shutil.copy(os.path.join(out, f'{k}.diff'), os.path.join(d, 'patch.diff'))
         m = json.load(open(meta))
         m['property'] = pid
+        if wave:
+            m['wave'] = int(wave)
         json.dump(m, open(os.path.join(d, 'meta.json'), 'w'), indent=1)
         dd = os.path.join(d, 'demonstration')
         os.makedirs(dd, exist_ok=True)
@@ -82,7 +84,7 @@ def run(names, tier, runs, extra_props):
 
 if __name__ == '__main__':
     if sys.argv[1] == 'ingest':
-        ingest(sys.argv[2], sys.argv[3])
+        ingest(sys.argv[2], sys.argv[3], sys.argv[4] if len(sys.argv) > 4 else None)
     elif sys.argv[1] == 'run':
         args = sys.argv[2:]
         tier, runs, extra, names = 'quick', 0, [], []
